@@ -2221,6 +2221,31 @@ func (st *relayState) judgeResponse(op *Op, in *sipwire.Msg, ems []*Emitted) {
 func init() {
 	for _, id := range []string{"C01", "C02", "C03", "C06", "C07", "C13"} {
 		id := id
-		register(id, func(seed uint64, tier string) *Plan { return genRelayPlan(seed, tier, id) }, execRelay)
+		register(id, func(seed uint64, tier string) *Plan {
+			if id == "C03" && (seed^(seed>>17))%12 == 0 {
+				// the decision table with a history: dialogs are pinned to backends, and requests of those dialogs arrive
+				// whose Request-URI is foreign and that carry no Route - they match none of the three rules and are dropped,
+				// pinned dialog or not (the dialog world, judged by C03's rule)
+				p := genStickyPlan(seed, tier)
+				if p.Variant == "" {
+					p.Variant = "dialog-foreign-ruri"
+					g := newGen(seed ^ 0xf0f0)
+					for i := range p.Ops {
+						for k := range p.Ops[i].Sub {
+							if sub := &p.Ops[i].Sub[k]; sub.S["after"] == "" && sub.S["method"] != "BYE" && !strings.HasPrefix(sub.S["state"], "terminated") && g.chance(35) {
+								sub.S["foreign"] = g.pick("sip:peer@elsewhere.invalid", "sip:10.9.9.9:5060", "sip:"+g.user0()+"@caller.invalid;transport=udp")
+							}
+						}
+					}
+				}
+				return p
+			}
+			return genRelayPlan(seed, tier, id)
+		}, func(t *testing.T, p *Plan) *Result {
+			if p.Variant == "dialog-foreign-ruri" || p.Variant == "membership" {
+				return execSticky(t, p)
+			}
+			return execRelay(t, p)
+		})
 	}
 }
